@@ -108,7 +108,7 @@ class Rejection:
 RELAX_GROUPS = ['live', 'memo', 'value']
 
 
-def validate_executions(execs, wd, relax=(), oracle=False, batch_lines=4000, jobs=8, timeout=900):
+def validate_executions(execs, wd, relax=(), oracle=False, batch_lines=4000, jobs=12, timeout=900, max_rejections=8):
     """Concatenate executions (reset-separated) into batches, validate each batch with one TLC run.
     On rejection: attribute (which relax group makes the line acceptable), record, continue after
     the offending execution.  Returns (n_lines_validated, rejections)."""
@@ -126,12 +126,16 @@ def validate_executions(execs, wd, relax=(), oracle=False, batch_lines=4000, job
     def build_of(v):
         return 'exit' if v == 'exit' else 'exc'
 
+    stop = {'n': 0}
+
     def do_batch(ib):
         bi, batch = ib
         rejs, lines_ok = [], 0
         pending = list(batch)
         rnd = 0
         while pending:
+            if stop['n'] >= max_rejections:
+                break
             rnd += 1
             path = os.path.join(wd, 'b%04d_%d.ndjson' % (bi, rnd))
             owners = []
@@ -170,6 +174,7 @@ def validate_executions(execs, wd, relax=(), oracle=False, batch_lines=4000, job
                         reason = g
                         break
             rejs.append(Rejection(exe, j, ev, reason, out[-1500:]))
+            stop['n'] += 1
             pending = pending[k + 1:]
         return lines_ok, rejs
     total, allr = 0, []
